@@ -100,6 +100,12 @@ def gen_case(rng):
             j = rng.randrange(n - 1)
             lab[j + 1] = lab[j]
         pool = [None] + [v / 4.0 for v in range(-24, 128)] + list(range(-6, 32))
+        if kind == 'i' and rng.random() < 0.15:
+            # integer labels beyond 2**53 (nanosecond time stamps, ids) with integer bounds: exact, though float64 cannot tell neighbours apart
+            lab = [int(v) + 2 ** 53 for v in lab]
+            ib = [None, None] + [v + 2 ** 53 for v in range(-6, 32)]
+            return {"block": "mono-rand", "lab": lab, "kind": kind, "ldtype": None, "derive": rng.choice([None, None, 'rev', 'revix', 'sub']),
+                    "start": rng.choice(ib), "stop": rng.choice(ib), "step": rng.choice(STEPS + [4, -3]), "big53": True}
         return {"block": "mono-rand", "lab": lab, "kind": kind, "ldtype": gen.label_dtype(rng, lab, kind, p=0.2),
                 "derive": rng.choice([None, None, 'rev', 'revix', 'sub']), "start": rng.choice(pool), "stop": rng.choice(pool), "step": rng.choice(STEPS + [4, -3])}
     if r < 0.8:
